@@ -76,9 +76,10 @@ theorem getLast?_lastD {α : Type} (d : α) : ∀ (l : List α) (m : α), l.getL
 def outsideModulePath (c : String) : String := joinWith "/" (dropLast' (splitDot c))
 /-- the module name `path_parts[-1]` (the last-but-one dot segment of the class path) -/
 def outsideModuleName (c : String) : String := lastD "" (dropLast' (splitDot c))
-/-- the file a placeholder for class path `c` goes to -/
+/-- the file a placeholder for class path `c` goes to: like a module stub, the file name is the
+    module name without its leading underscores -/
 def outsideFile (c : String) : String :=
-  joinWith "/" (pathParts (outsideModulePath c) ++ [outsideModuleName c ++ ".sdsstub"])
+  joinWith "/" (pathParts (outsideModulePath c) ++ [pyLstrip (outsideModuleName c) "_" ++ ".sdsstub"])
 /-- the dotted Python module path `".".join(path_parts)` -/
 def outsidePyPath (c : String) : String := joinWith "." (dropLast' (splitDot c))
 /-- the package header of a placeholder stub -/
@@ -1086,7 +1087,7 @@ def PlainOutside (outside : List String) : Prop :=
   ∀ c ∈ outside, ∀ s ∈ dropLast' (splitDot c), '/' ∉ s.toList ∧ s ≠ ""
 
 theorem splitSlash_outsideFile (c : String) (h : ∀ s ∈ dropLast' (splitDot c), '/' ∉ s.toList ∧ s ≠ "") :
-    splitSlash (outsideFile c) = dropLast' (splitDot c) ++ [outsideModuleName c ++ ".sdsstub"] := by
+    splitSlash (outsideFile c) = dropLast' (splitDot c) ++ [pyLstrip (outsideModuleName c) "_" ++ ".sdsstub"] := by
   have hpp : pathParts (outsideModulePath c) = dropLast' (splitDot c) :=
     pathParts_joinWith _ (fun s hs => ⟨(h s hs).1, (h s hs).2, ne_dot_of_mem_splitDot c s (mem_dropLast' s _ hs)⟩)
   unfold outsideFile
@@ -1099,16 +1100,20 @@ theorem splitSlash_outsideFile (c : String) (h : ∀ s ∈ dropLast' (splitDot c
   · exact (h s hs).1
   · rw [String.toList_append, List.mem_append, not_or]
     refine ⟨?_, by decide⟩
-    unfold outsideModuleName
-    by_cases hne : dropLast' (splitDot c) = []
-    · rw [hne]; decide
-    · exact (h _ (lastD_mem "" _ hne)).1
+    have hmn : '/' ∉ (outsideModuleName c).toList := by
+      unfold outsideModuleName
+      by_cases hne : dropLast' (splitDot c) = []
+      · rw [hne]; decide
+      · exact (h _ (lastD_mem "" _ hne)).1
+    unfold pyLstrip
+    rw [String.toList_ofList]
+    exact fun hx => hmn (mem_lstripSet _ _ _ hx)
 
 theorem outsideInjective_of_plain (outside : List String) (h : PlainOutside outside) : OutsideInjective outside := by
   intro c₁ h1 c₂ h2 he
   have := congrArg splitSlash he
   rw [splitSlash_outsideFile c₁ (h c₁ h1), splitSlash_outsideFile c₂ (h c₂ h2)] at this
-  obtain ⟨ha, _⟩ := List.append_inj' this rfl
+  obtain ⟨ha, _⟩ := List.append_inj' this (by simp only [List.length_singleton])
   unfold outsideModulePath
   rw [ha]
 
@@ -1121,6 +1126,34 @@ theorem coherentOutside_of_plain (outside : List String) (h : PlainOutside outsi
     rw [← hp c₁ h1, ← hp c₂ h2, he]
   unfold outsideModuleName
   rw [this]
+
+theorem lastD_append_singleton {α : Type} (d x : α) : ∀ (l : List α), lastD d (l ++ [x]) = x
+  | [] => rfl
+  | [_] => rfl
+  | a :: b :: l => by
+    have h : lastD d (a :: b :: l ++ [x]) = lastD d (b :: l ++ [x]) := rfl
+    rw [h]
+    exact lastD_append_singleton d x (b :: l)
+
+/-- what `lstrip` leaves does not start with a stripped character -/
+theorem lstripSet_head_not_mem (set : List Char) (x : Char) (hx : x ∈ set) :
+    ∀ (l : List Char), (lstripSet set l).head? ≠ some x
+  | [] => by simp [lstripSet]
+  | c :: cs => by
+    unfold lstripSet
+    split
+    · exact lstripSet_head_not_mem set x hx cs
+    · rename_i hc
+      intro e
+      simp only [List.head?_cons, Option.some.injEq] at e
+      subst e
+      exact hc (List.contains_iff_mem.2 hx)
+
+theorem pyLstrip_head_not_mem (s chars : String) (x : Char) (hx : x ∈ chars.toList) :
+    (pyLstrip s chars).toList.head? ≠ some x := by
+  unfold pyLstrip
+  rw [String.toList_ofList]
+  exact lstripSet_head_not_mem _ x hx _
 
 /-! ### frame: the string generation never touches `creatingReexport` / `reexportModuleId` -/
 
